@@ -334,6 +334,7 @@ func init() {
 	registerBinary(reg)
 	registerRand(reg)
 	registerCRC(reg)
+	registerLocalRand(reg)
 }
 
 func concreteF1(f func(float64) float64) intrinsic {
